@@ -73,23 +73,30 @@ theorem distance_reported (Lx Ly : Nat) (hx : 1 ≤ Lx) (hy : 1 ≤ Ly) :
 
 /-! ### deformed codes (`code.deform(name, deformation_axis=axis)`) -/
 
-/-- the class offers the deformations 'XZZX' and 'XY' along the axes 'x' and 'y': for these
+/-- the class offers the deformations 'XZZX' and 'XY' along the axes 'x' and 'y' (`none` = keyword
+    omitted = the default 'y', `C01RotatedPlanar2DCode.deformation_default_axis`): for these
     `get_deformation` is defined on every qubit of every lattice (for any other name or axis it
     raises, `C01RotatedPlanar2DCode.deformation_rule_bad_name` / `_bad_axis`) -/
-theorem deformation_defined (Lx Ly : Nat) (name axis : String)
-    (hn : name = "XZZX" ∨ name = "XY") (ha : axis = "x" ∨ axis = "y") (q : Coord)
-    (hq : q ∈ (lattice Lx Ly).qubits) : ∃ m, getDeformation name axis q = some m := by
-  rcases hn with rfl | rfl
-  · exact ⟨_, C01RotatedPlanar2DCode.deformation_rule_on_qubits Lx Ly axis q ha hq⟩
-  · exact ⟨_, C01RotatedPlanar2DCode.deformation_rule_XY axis q ha⟩
+theorem deformation_defined (Lx Ly : Nat) (name : String) (axis : Option String)
+    (hn : name = "XZZX" ∨ name = "XY") (ha : axis = none ∨ axis = some "x" ∨ axis = some "y")
+    (q : Coord) (hq : q ∈ (lattice Lx Ly).qubits) : ∃ m, getDeformation name axis q = some m := by
+  have key : ∀ a : String, a = "x" ∨ a = "y" → ∃ m, getDeformation name (some a) q = some m := by
+    intro a ha'
+    rcases hn with rfl | rfl
+    · exact ⟨_, C01RotatedPlanar2DCode.deformation_rule_on_qubits Lx Ly a q ha' hq⟩
+    · exact ⟨_, C01RotatedPlanar2DCode.deformation_rule_XY a q ha'⟩
+  rcases ha with rfl | rfl | rfl
+  · rw [C01RotatedPlanar2DCode.deformation_default_axis]; exact key "y" (Or.inr rfl)
+  · exact key "x" (Or.inl rfl)
+  · exact key "y" (Or.inr rfl)
 
 /-- THE C17 STATEMENT FOR EVERY DEFORMED CODE OF THE CLASS, ALL SIZES (`Lx, Ly ≥ 1`): for every
     deformation name and axis for which `get_deformation` is defined on the qubits (`D q` = the
     relabelling it returns on `q`), the matrices the deformed getters assemble are the
     relabelled rows, they form a valid `[[n, 1]]` code, `code.d` reports `min Lx Ly`, and
     `min Lx Ly` is the true distance of the deformed code -/
-theorem distance_deformed (Lx Ly : Nat) (hx : 1 ≤ Lx) (hy : 1 ≤ Ly) (name axis : String)
-    (D : Coord → PauliMap)
+theorem distance_deformed (Lx Ly : Nat) (hx : 1 ≤ Lx) (hy : 1 ≤ Ly) (name : String)
+    (axis : Option String) (D : Coord → PauliMap)
     (hD : ∀ q ∈ (lattice Lx Ly).qubits, getDeformation name axis q = some (D q)) :
     stabilizerMatrix ((lattice Lx Ly).toCodeData.deform D) =
         some ((lattice Lx Ly).rowsH.map (deformBsf ((lattice Lx Ly).qubits.map D))) ∧
@@ -113,12 +120,13 @@ theorem distance_deformed (Lx Ly : Nat) (hx : 1 ≤ Lx) (hy : 1 ≤ Ly) (name ax
 
 /-- the relabelling `get_deformation(·, name, axis)` as a function of the location (identity
     where it raises — nowhere on the qubits for the offered names and axes) -/
-def deformationOf (name axis : String) (q : Coord) : PauliMap :=
+def deformationOf (name : String) (axis : Option String) (q : Coord) : PauliMap :=
   (getDeformation name axis q).getD PauliMap.id
 
 /-- the deformed code of every offered name and axis has distance `min Lx Ly` — every size -/
 theorem distance_deformed_offered (Lx Ly : Nat) (hx : 1 ≤ Lx) (hy : 1 ≤ Ly)
-    (name axis : String) (hn : name = "XZZX" ∨ name = "XY") (ha : axis = "x" ∨ axis = "y") :
+    (name : String) (axis : Option String) (hn : name = "XZZX" ∨ name = "XY")
+    (ha : axis = none ∨ axis = some "x" ∨ axis = some "y") :
     IsDistance (Lx * Ly)
       ((lattice Lx Ly).rowsH.map
         (deformBsf ((lattice Lx Ly).qubits.map (deformationOf name axis)))) (min Lx Ly) :=
@@ -143,10 +151,10 @@ example : (lattice 2 3).rowsX.map pauliWeight = [2] ∧ (lattice 2 3).rowsZ.map 
 
 /-- the XZZX code on the `3 × 4` lattice has distance 3; its first generator is relabelled -/
 example : IsDistance 12 ((lattice 3 4).rowsH.map
-    (deformBsf ((lattice 3 4).qubits.map (deformationOf "XZZX" "x")))) 3 :=
-  distance_deformed_offered 3 4 (by decide) (by decide) "XZZX" "x" (Or.inl rfl) (Or.inl rfl)
+    (deformBsf ((lattice 3 4).qubits.map (deformationOf "XZZX" (some "x"))))) 3 :=
+  distance_deformed_offered 3 4 (by decide) (by decide) "XZZX" (some "x") (Or.inl rfl) (Or.inr (Or.inl rfl))
 example : ((lattice 2 2).rowsH.map
-    (deformBsf ((lattice 2 2).qubits.map (deformationOf "XZZX" "x")))) ≠ (lattice 2 2).rowsH := by
+    (deformBsf ((lattice 2 2).qubits.map (deformationOf "XZZX" (some "x"))))) ≠ (lattice 2 2).rowsH := by
   decide
 
 end Panqec.C17RotatedPlanar2DCode
